@@ -364,8 +364,12 @@ def main():
     if not args.no_evidence:
         write_evidence(prop, evidence)
 
-    for fid, (f, n) in sorted(known_hits.items()):
-        print("KNOWN-FINDING: property=%s %s [%s, seen %d times]" % (prop, f["what"], fid, n))
+    for f in findings["open"]:
+        if f["property"] != prop:
+            continue
+        n = known_hits.get(f["id"], (f, 0))[1]
+        print("KNOWN-FINDING: property=%s %s [%s, %s]" % (prop, f["what"], f["id"],
+                                                         "seen %d times in this run" % n if n else "listed; not exercised by this run"))
 
     print("runs=%d (faulty %d, fault-free %d, sweep %d) nontrivial=%d steps=%d wall=%.1fs runs/h=%d traces=%d" % (
         len(all_results), len(results), len(clean_results), len(sweep_results), len(nontrivial), evidence["coverage"]["evaluator_steps"],
